@@ -452,14 +452,20 @@ class TimeBase(np.ndarray):
 
     def __hash__(self):
         try:
-            # Python floats (a single epoch read from a datetime) hash like the equal numpy scalars and 0-d arrays
-            return hash(np.asarray(self.jd1, dtype=float).tobytes()) + hash(np.asarray(self.jd2, dtype=float).tobytes())
+            # The shape is part of the hash (and of __eq__): a single epoch and an array with that one epoch are
+            # different keys of the memoized conversions. Python floats hash like the equal numpy scalars.
+            jd1 = np.asarray(self.jd1, dtype=float)
+            jd2 = np.asarray(self.jd2, dtype=float)
+            return hash((jd1.shape, jd1.tobytes(), jd2.tobytes()))
         except (TypeError, ValueError):
             return hash(str(self.jd1)) + hash(str(self.jd2))
 
     def __eq__(self, other):
         if isinstance(other, self.__class__):
-            return np.all(self.jd1 == other.jd1) and np.all(self.jd2 == other.jd2)
+            # Equal time objects have the same shape and the same Julian dates (no broadcasting)
+            if np.shape(self.jd1) != np.shape(other.jd1) or np.shape(self.jd2) != np.shape(other.jd2):
+                return False
+            return bool(np.all(self.jd1 == other.jd1) and np.all(self.jd2 == other.jd2))
         else:
             return NotImplemented
 
